@@ -491,14 +491,19 @@ def xyz_reader(reader_class: ReadAndProcessOnTheFly) -> List[np.ndarray]:
         return trajectory
     for i, line in enumerate(iter(reader_class.file_object.readline, "")):
         spl = line.split()
-        if i == 0 and spl:
+        if i == 0:
+            # the atom count may still be partially written
+            if not spl or line[-1] != "\n":
+                return trajectory
             N_atoms = int(spl[0])
             block_size = N_atoms + 2  # 2 header lines
         # if we are not in the atom nr or header block
         if i % block_size > 1:
-            # if there aren't enough values to iterate through
-            # return the (possibly empty) ready trajectory frames
-            if len(spl) != 4:
+            # if there aren't enough values to iterate through, or the
+            # line is still being written (no newline yet, so the last
+            # number may be truncated), return the (possibly empty)
+            # ready trajectory frames
+            if len(spl) != 4 or line[-1] != "\n":
                 return trajectory
             else:
                 frame_coordinates.append([float(spl[i]) for i in range(1, 4)])
